@@ -32,6 +32,9 @@ CORE_TRUSTED = [
 ]
 
 
+CORE_LEAF_FILES = ["LeafCoreFd.v", "LeafCoreTask.v", "LeafCoreMain.v", "LeafCoreEpoll.v", "LeafCorePoll.v"]
+
+
 class CoreCheck(LineCheck):
     coq_extra = ["theories/Core/CoreRel.vo", "theories/Core/CoreInv.vo", "theories/Core/CoreCodes.vo", "theories/Core/CoreCodes2.vo",
                  "theories/Core/CorePhase2Fd.vo", "theories/Core/CorePhase2Time.vo", "theories/Core/CorePhase2TimeC09.vo", "theories/Core/CorePhase2Guard.vo", "theories/Core/CorePhase2GuardAll.vo", "theories/Core/CorePhase2AcctIdleTop.vo", "theories/Core/CorePhase2Ei.vo", "theories/Core/CorePhase2AcctC07.vo", "theories/Core/CoreAll.vo", "theories/Core/FairMon.vo", "theories/Core/FairMonProof.vo", "theories/Core/CoreExamples.vo"]
@@ -46,20 +49,32 @@ class CoreCheck(LineCheck):
 
     leaf = False           # does this property's proof depend on the translated leaf functions?
 
+    core_leaf = False      # ... and on the translated decision points of the core loop (Gen/LeafCore*.v, Core/CoreLeafLink.v)?
+
     @property
     def coq_targets(self):
-        return CORE_VO + (["theories/Gen/Leaf.vo", "theories/Base/LeafLink.vo"] if self.leaf else []) + self.coq_extra
+        return CORE_VO + (["theories/Gen/Leaf.vo", "theories/Base/LeafLink.vo"] if self.leaf else []) + \
+            ((["theories/Gen/%so" % f for f in CORE_LEAF_FILES] + ["theories/Core/CoreLeafLink.vo"]) if self.core_leaf else []) + \
+            self.coq_extra
 
     def pre_proof(self, ctx):
-        """way (a) of the tie: regenerate Gen/Leaf.v from the current C source"""
-        if not self.leaf:
+        """way (a) of the tie: regenerate Gen/Leaf.v (leaf functions) and Gen/LeafCore*.v (the tests and stores of
+        iv_fd_timeout_check, the dispatch loop, iv_fd_make_ready, iv_task_register, iv_run_tasks, iv_main, the epoll and
+        poll batch decoding, the epoll flush and the poll slot bookkeeping) from the current C source"""
+        if not self.leaf and not self.core_leaf:
             return None
         import importlib.util
         spec = importlib.util.spec_from_file_location("c2gallina", os.path.join(vlib.VERIF, "gen", "c2gallina.py"))
         mod = importlib.util.module_from_spec(spec)
         spec.loader.exec_module(mod)
         with vlib.Lock(os.path.join(vlib.COQ, ".lock")):
-            err = mod.main()
+            err = mod.main() if self.leaf else None
+            if not err and self.core_leaf:
+                err = mod.main(None, list(CORE_LEAF_FILES))
+                errs = [getattr(mod, "LAST_ERRORS", {}).get(f) for f in CORE_LEAF_FILES]
+                errs = [e for e in errs if e]
+                if not err and errs:
+                    err = "; ".join(errs)
         return ("leaf translator failed (tie broken): " + err) if err else None
 
     @property
@@ -305,6 +320,7 @@ class C01(CoreCheck):
 class C02(CoreCheck):
     pid = "C02"
     leaf = True
+    core_leaf = True
     codes = [(200, 300), (1104, 1105)]
     profiles = ["fd", "fd", "mixed"]
     rule = ("handler toggling histories (NULL->h->NULL->h within and across iterations), conditions raised before/after registration, "
@@ -336,6 +352,7 @@ class C02(CoreCheck):
 class C03(CoreCheck):
     pid = "C03"
     leaf = True
+    core_leaf = True
     codes = [(300, 400), (101, 102), (1101, 1103)]
     profiles = ["fd", "fd", "mixed"]
     rule = ("multi-iteration readiness patterns (ready in one iteration, not the next), struct reuse after unregister, cookie changes, "
@@ -392,6 +409,7 @@ class C03(CoreCheck):
 class C04(CoreCheck):
     pid = "C04"
     leaf = True
+    core_leaf = True
     # 605: due timers are dispatched before the next wait / before iv_main returns (theorem C04_due_timers_run)
     codes = [(400, 500), (102, 103), (1103, 1104), (605, 606)]
     profiles = ["timer", "timer", "mixed"]
@@ -442,6 +460,7 @@ class C04(CoreCheck):
 
 class C06(CoreCheck):
     pid = "C06"
+    core_leaf = True
     codes = [(600, 700), (103, 104), (1101, 1103)]
     profiles = ["task", "task", "mixed"]
     rule = ("tasks registering self / each other / fresh / already-run tasks from task, descriptor, timer and event handlers with ready "
@@ -530,6 +549,7 @@ def _impl_and_monitors_only(self, ctx, cases, prefix, base_correspond, label):
 
 class C07(CoreCheck):
     pid = "C07"
+    core_leaf = True
     # 403-405 / 602 / 604 / 901-902: "blocks in the kernel only when nothing is due" for timers, tasks and raw events
     # (theorem C07_blocks_only_when_nothing_due)
     # 603: a task runs at most once per iteration (theorem C07_task_chains_yield)
@@ -920,6 +940,7 @@ class C18(CoreCheck):
 class C15(CoreCheck):
     pid = "C15"
     leaf = True
+    core_leaf = True
     codes = [(1500, 1600), (100, 1200), (1800, 1900)]
     profiles = ["mixed", "fd", "timer", "event"]
     with_faults = 0.8
